@@ -20,13 +20,22 @@ Theorem take_uris_all l : take_uris (map GUri l) = l.
 Proof. induction l as [|u t IH]; [reflexivity|]. cbn. f_equal. exact IH. Qed.
 
 (* ---------- the delta: the first advertised location that answers ---------- *)
+Lemma dl_some srv u d : dl srv u = Some d -> plain_http u = true /\ lookup srv u = Some d.
+Proof. unfold dl. destruct (plain_http u); [auto|discriminate]. Qed.
+Lemma dev_http u : plain_http u = true -> dev u = [EDownload u].
+Proof. unfold dev. intros ->. reflexivity. Qed.
+Lemma dev_only_http u v : In (EDownload v) (dev u) -> plain_http v = true.
+Proof. unfold dev. destruct (plain_http u) eqn:P; [intros [H|[]]; inversion H; subst; exact P|intros []]. Qed.
+Lemma devs_only_http l v : In (EDownload v) (flat_map dev l) -> plain_http v = true.
+Proof. rewrite in_flat_map. intros [u [_ H]]. eapply dev_only_http; exact H. Qed.
+
 Lemma first_answer_some srv : forall us d ev, first_answer srv us = (Some d, ev) ->
-  exists l1 u l2, us = l1 ++ u :: l2 /\ (forall v, In v l1 -> lookup srv v = None) /\ lookup srv u = Some d /\
-                  ev = map EDownload (l1 ++ [u]).
+  exists l1 u l2, us = l1 ++ u :: l2 /\ (forall v, In v l1 -> dl srv v = None) /\ dl srv u = Some d /\
+                  ev = flat_map dev (l1 ++ [u]).
 Proof.
   induction us as [|u r IH]; intros d ev H; cbn in H; [discriminate|].
-  destruct (lookup srv u) as [x|] eqn:L.
-  - inversion H; subst. exists [], u, r. repeat split; auto. intros v [].
+  destruct (dl srv u) as [x|] eqn:L.
+  - inversion H; subst. exists [], u, r. repeat split; auto. intros v []. cbn. rewrite app_nil_r. reflexivity.
   - destruct (first_answer srv r) as [y ev'] eqn:F. inversion H; subst y ev. destruct (IH d ev' eq_refl) as [l1 [w [l2 [E [Hn [Hl Hev]]]]]].
     exists (u :: l1), w, l2. split; [rewrite E; reflexivity|]. split.
     + intros v [<-|Hv]; [exact L|apply Hn; exact Hv].
@@ -34,11 +43,11 @@ Proof.
 Qed.
 
 Lemma first_answer_none srv : forall us ev, first_answer srv us = (None, ev) ->
-  (forall v, In v us -> lookup srv v = None) /\ ev = map EDownload us.
+  (forall v, In v us -> dl srv v = None) /\ ev = flat_map dev us.
 Proof.
   induction us as [|u r IH]; intros ev H; cbn in H.
   - inversion H. split; [intros v []|reflexivity].
-  - destruct (lookup srv u) eqn:L; [discriminate|]. destruct (first_answer srv r) as [y ev'] eqn:F. inversion H; subst y ev.
+  - destruct (dl srv u) eqn:L; [discriminate|]. destruct (first_answer srv r) as [y ev'] eqn:F. inversion H; subst y ev.
     destruct (IH ev' eq_refl) as [Hn Hev]. split; [intros v [<-|Hv]; auto|rewrite Hev; reflexivity].
 Qed.
 
@@ -50,9 +59,9 @@ Theorem fetch_delta_exact srv base :
   match fetch_delta srv base with
   | (DNone, ev) => advertised base = Some [] /\ ev = []
   | (DErr, ev) => advertised base = None \/
-                  exists us, advertised base = Some us /\ us <> [] /\ (forall v, In v us -> lookup srv v = None) /\ ev = map EDownload us
-  | (DSome d, ev) => exists l1 u l2, advertised base = Some (l1 ++ u :: l2) /\ (forall v, In v l1 -> lookup srv v = None) /\
-                                     lookup srv u = Some d /\ ev = map EDownload (l1 ++ [u])
+                  exists us, advertised base = Some us /\ us <> [] /\ (forall v, In v us -> dl srv v = None) /\ ev = flat_map dev us
+  | (DSome d, ev) => exists l1 u l2, advertised base = Some (l1 ++ u :: l2) /\ (forall v, In v l1 -> dl srv v = None) /\
+                                     dl srv u = Some d /\ ev = flat_map dev (l1 ++ [u])
   end.
 Proof.
   unfold fetch_delta, advertised. destruct (f_fresh base) as [| |ps]; [auto|left; reflexivity|].
@@ -68,10 +77,10 @@ Definition BundleEffective (now : Z) (b : fbundle) : Prop :=
 
 (* what a download of url yields in world w *)
 Definition Downloaded (w : fworld) (url : Z) (b : fbundle) : Prop :=
-  lookup (fw_server w) url = Some (fb_base b) /\
+  dl (fw_server w) url = Some (fb_base b) /\
   match fb_delta b with
   | None => advertised (fb_base b) = Some []
-  | Some d => exists l1 u l2, advertised (fb_base b) = Some (l1 ++ u :: l2) /\ (forall v, In v l1 -> lookup (fw_server w) v = None) /\ lookup (fw_server w) u = Some d
+  | Some d => exists l1 u l2, advertised (fb_base b) = Some (l1 ++ u :: l2) /\ (forall v, In v l1 -> dl (fw_server w) v = None) /\ dl (fw_server w) u = Some d
   end.
 
 Lemma download_path cfg w url pre r cache' ev :
@@ -84,7 +93,7 @@ Lemma download_path cfg w url pre r cache' ev :
   | FErr => cache' = fw_cache w
   end.
 Proof.
-  unfold fetch_download. destruct (lookup (fw_server w) url) as [base|] eqn:L; [|intros H; inversion H; reflexivity].
+  unfold fetch_download. destruct (dl (fw_server w) url) as [base|] eqn:L; [|intros H; inversion H; reflexivity].
   pose proof (fetch_delta_exact (fw_server w) base) as HD.
   destruct (fetch_delta (fw_server w) base) as [[| |d] evd] eqn:FD; [intros H; inversion H; reflexivity| |].
   - destruct HD as [Ha ->].
@@ -153,6 +162,68 @@ Proof.
   - apply (Dl _ H). intros X; discriminate.
 Qed.
 
+(* plain HTTP only: every request made is for an http URL, and a downloaded bundle's base and delta
+   both came from http URLs (a location with any other scheme counts as one that does not answer) *)
+Lemma fetch_delta_events_http srv base ev r : fetch_delta srv base = (r, ev) -> forall u, In (EDownload u) ev -> plain_http u = true.
+Proof.
+  intros H u Hu. pose proof (fetch_delta_exact srv base) as E. rewrite H in E. destruct r.
+  - destruct E as [E|[us [_ [_ [_ ->]]]]]; [|eapply devs_only_http; exact Hu].
+    unfold fetch_delta in H. unfold advertised in E. destruct (f_fresh base) as [| |ps]; try discriminate.
+    + inversion H; subst. destruct Hu.
+    + rewrite E in H. inversion H; subst. destruct Hu.
+  - destruct E as [_ ->]. destruct Hu.
+  - destruct E as [l1 [v [l2 [_ [_ [_ ->]]]]]]. eapply devs_only_http; exact Hu.
+Qed.
+
+Lemma download_events_http cfg w url pre r cache' ev :
+  fetch_download cfg w url pre = (r, cache', ev) ->
+  forall u, In (EDownload u) ev -> In (EDownload u) pre \/ plain_http u = true.
+Proof.
+  unfold fetch_download. intros H u Hu. destruct (dl (fw_server w) url) as [base|] eqn:L.
+  - apply dl_some in L. destruct L as [P _].
+    destruct (fetch_delta (fw_server w) base) as [dr evd] eqn:FD.
+    assert (Hd : forall v, In (EDownload v) evd -> plain_http v = true) by (eapply fetch_delta_events_http; exact FD).
+    assert (Core : In (EDownload u) (pre ++ EDownload url :: evd) -> In (EDownload u) pre \/ plain_http u = true).
+    { intros X. apply in_app_or in X. destruct X as [X|[X|X]]; [left; exact X|inversion X; subst; right; exact P|right; apply Hd; exact X]. }
+    assert (Core2 : In (EDownload u) ((pre ++ EDownload url :: evd) ++ [ESet url]) -> In (EDownload u) pre \/ plain_http u = true).
+    { intros X. apply in_app_or in X. destruct X as [X|[X|[]]]; [apply Core; exact X|discriminate]. }
+    destruct dr; [inversion H; subst; apply Core; exact Hu| |];
+      (destruct (fc_cache cfg); [destruct (fw_set_fault w); [destruct (fc_discard cfg)|]|]; inversion H; subst; auto).
+  - inversion H; subst. apply in_app_or in Hu. destruct Hu as [X|X]; [left; exact X|right; eapply dev_only_http; exact X].
+Qed.
+
+Theorem plain_http_only cfg w url r cache' ev :
+  fetch cfg w url = (r, cache', ev) -> forall u, In (EDownload u) ev -> plain_http u = true.
+Proof.
+  unfold fetch. intros H u Hu.
+  assert (D : forall pre, (forall v, ~ In (EDownload v) pre) -> fetch_download cfg w url pre = (r, cache', ev) -> plain_http u = true).
+  { intros pre Hp Hd. destruct (download_events_http _ _ _ _ _ _ _ Hd u Hu) as [X|X]; [exfalso; exact (Hp u X)|exact X]. }
+  assert (P1 : forall v, ~ In (EDownload v) [EGet url]) by (intros v [X|[]]; discriminate).
+  assert (P0 : forall v, ~ In (EDownload v) (@nil fevent)) by (intros v []).
+  destruct (fc_cache cfg).
+  - destruct (fw_get_fault w).
+    + destruct (fc_discard cfg); [exact (D _ P1 H)|]. inversion H; subst. exfalso. exact (P1 u Hu).
+    + destruct (lookup (fw_cache w) url) as [b|]; [|exact (D _ P1 H)].
+      destruct (effective (fw_now w) (fb_base b) && _); [|exact (D _ P1 H)]. inversion H; subst. exfalso. exact (P1 u Hu).
+  - exact (D _ P0 H).
+Qed.
+
+Theorem downloaded_over_http w url b : Downloaded w url b ->
+  plain_http url = true /\ lookup (fw_server w) url = Some (fb_base b) /\
+  match fb_delta b with
+  | None => True
+  | Some d => exists u, plain_http u = true /\ lookup (fw_server w) u = Some d
+  end.
+Proof.
+  intros [Hb Hd]. apply dl_some in Hb. destruct Hb as [P L]. split; [exact P|]. split; [exact L|].
+  destruct (fb_delta b) as [d|]; [|exact I]. destruct Hd as [l1 [u [l2 [_ [_ Hu]]]]]. apply dl_some in Hu. exists u. exact Hu.
+Qed.
+
+(* a URL whose scheme is not http is an error without any request, whatever the server would answer *)
+Theorem non_http_is_error cfg w url pre : plain_http url = false ->
+  fetch_download cfg w url pre = (FErr, fw_cache w, pre).
+Proof. intros P. unfold fetch_download, dl, dev. rewrite P, app_nil_r. reflexivity. Qed.
+
 (* an expired or next-update-less cached bundle is never returned from the cache *)
 Theorem never_stale cfg w url b cache' ev :
   fetch cfg w url = (FOk b true, cache', ev) -> BundleEffective (fw_now w) b /\ lookup (fw_cache w) url = Some b.
@@ -174,7 +245,7 @@ Qed.
 
 Theorem miss_is_not_error cfg w url base :
   fw_get_fault w = false -> (fw_set_fault w = false \/ fc_discard cfg = true \/ fc_cache cfg = false) ->
-  lookup (fw_cache w) url = None -> lookup (fw_server w) url = Some base ->
+  lookup (fw_cache w) url = None -> dl (fw_server w) url = Some base ->
   (forall ev, fetch_delta (fw_server w) base <> (DErr, ev)) ->
   exists b cache' ev, fetch cfg w url = (FOk b false, cache', ev) /\ fb_base b = base.
 Proof.
